@@ -239,11 +239,11 @@ func (g *progGen) exprs(vars map[string]int, order []string, errProne bool) []SE
 			case 1:
 				out = append(out, SExpr{val(k), val(aVar(v)), bin(15), SOp{Kind: 1, Un: 2}, val(aInt(int64(r.Intn(3)))), bin(r.Intn(5))})
 			case 2:
-				out = append(out, SExpr{val(aVar(v)), val(k), bin(16), SOp{Kind: 1, Un: 2}, val(aInt(int64(1+r.Intn(4)))), bin(r.Intn(5))})
+				out = append(out, SExpr{val(aVar(v)), val(k), bin(16), SOp{Kind: 1, Un: 2}, val(aInt(int64(1 + r.Intn(4)))), bin(r.Intn(5))})
 			case 3:
 				out = append(out, SExpr{val(aVar(v)), val(aInt(int64(r.Intn(4)))), bin(5)})
 			case 4:
-				out = append(out, SExpr{val(aVar(v)), val(k), bin(15), val(aInt(int64(1+r.Intn(3)))), bin(5)})
+				out = append(out, SExpr{val(aVar(v)), val(k), bin(15), val(aInt(int64(1 + r.Intn(3)))), bin(5)})
 			default:
 				out = append(out, SExpr{val(aVar(v)), val(aVar(v)), bin(4)})
 			}
